@@ -107,9 +107,9 @@ theorem C17_sound_complete_false : ¬ C17_sound_complete_stmt := by
 
 /-- OPEN (believed true, tied by correspondence only: the harness puts `specFlaws` of every
 implementation result to the driver; all disagreements observed fall in the three excluded
-shapes).  Excluded regions: a listed version below the selected one; two listed majors of one
-base path without an explicit default; a needed import provided by two modules of the build
-list. -/
+shapes).  Excluded regions: the root set and the module graph disagree (a listed version below the
+selected one, or a promoted root whose requirements change the selection); a needed import
+provided by two modules of the build list. -/
 def C17_sound_complete_partial_stmt : Prop :=   -- OPEN
   ∀ (main : Mod) (mods : List Mod) (fuel : Nat) (ds : List Dep),
     tidy main (regOf mods) fuel = .ok ds →
@@ -128,20 +128,31 @@ def C17_idem_stmt : Prop :=
     tidy { main with deps := ds } (regOf mods) fuel = .ok ds ∧
     checkTidy { main with deps := ds } (regOf mods) fuel = .ok
 
-/-- Witness W2 (harness: `two-majors-no-default`): "t.test/a/x" is imported without a major
-version, "t.test/a/y@v1" is reached through b's requirement on a@v1; tidy lists a@v0 and a@v1,
-neither marked default; on that file tidy fails and the check answers "not tidy". -/
+/-- Witness W2 (harness: `roots-graph-inconsistent`, shape (c)): main lists u.test/d@v0, which
+requires t.test/c@v1; c's package imports "u.test/d/n/x" and c requires u.test/d@v1.  Tidy lists
+c@v1 and d@v0; on that file c is a root, its requirement brings d@v1 into the build list, tidy
+answers c@v1 and d@v1 and the check answers "not tidy". -/
 theorem C17_idem_false : ¬ C17_idem_stmt := by
   intro h
   have h2 := (h Witness.main2 Witness.mods2 60 Witness.deps2 Witness.w2_tidy).2
-  rw [Witness.w2_second_fails.2] at h2
+  rw [Witness.w2_second_differs.2] at h2
   exact absurd h2 (by decide)
+
+/-- The former second counterexample (two majors of one base path listed without a default,
+finding `two-majors-no-default`) is repaired by `keepImpliedDefaults` (8593d77): on that universe
+the major the unqualified import was resolved with is marked default, the result is a fixpoint,
+the check accepts it and the specification finds no flaw.  (A TEST on one universe.) -/
+theorem C17_two_majors_repaired :
+    tidy Witness.mainR (regOf Witness.modsR) 60 = .ok Witness.depsR ∧
+    checkTidy { Witness.mainR with deps := Witness.depsR } (regOf Witness.modsR) 60 = .ok ∧
+    specFlaws Witness.mainR (regOf Witness.modsR) Witness.depsR 60 = [] :=
+  ⟨Witness.r_tidy, Witness.r_stable.2.1, Witness.r_stable.2.2⟩
 
 /-- The provable core of idempotence: the tidiness check is a fixpoint test.  Whenever
 CheckTidy accepts a module file, Tidy succeeds on it and lists exactly the same module versions
 with exactly the default marks the file's defaults induce — so `Tidy(Tidy(x)) = Tidy(x)` holds
 precisely when the check accepts `Tidy(x)` (the excluded region is "the check rejects tidy's
-output", which is what W2 exhibits). -/
+output", which is what W2 exhibits).  `keepImpliedDefaults` is the identity in that situation. -/
 theorem C17_idem_partial (main : Mod) (reg : Reg) (fuel : Nat) (hf : 0 < fuel)
     (h : checkTidy main reg fuel = .ok) :
     ∃ ds, tidy main reg fuel = .ok ds ∧
